@@ -4,6 +4,7 @@ import (
 	"bytes"
 	"encoding/json"
 	"fmt"
+	"os"
 	"sort"
 	"strings"
 	"time"
@@ -159,7 +160,25 @@ func wsAnswers(root string, res *proto.Result, base int, meta []wsQStep) map[str
 }
 
 func diskKey(d map[string]string) string {
-	return d["f1"] + "|" + d["f2"] + "|" + d["f3"]
+	return d["f1"] + "|" + d["f2"] + "|" + d["f3"] + "|" + d["cfg"]
+}
+
+// wsProjectCfg: the configuration of the histories that run in project mode (f1.lua is the entry file).
+const wsProjectCfg = `{"ShowWarnFlag":1,"ProjectFiles":["f1.lua"]}`
+
+// wsPutFiles writes the files of a disk state (and its configuration) into a case.
+func wsPutFiles(pc *proto.Case, d map[string]string) {
+	for f, v := range d {
+		if f == "cfg" {
+			if v == "project" {
+				pc.Files["luahelper.json"] = wsProjectCfg
+			}
+			continue
+		}
+		if v != "absent" {
+			pc.Files[wsFileName[f]] = wsText(f, v)
+		}
+	}
 }
 
 func wsBuild(id int, raw json.RawMessage) *Job {
@@ -173,10 +192,14 @@ func wsBuild(id int, raw json.RawMessage) *Job {
 	for f, v := range tc.Disk0 {
 		disk[f] = v
 		buf[f] = "closed"
-		if v != "absent" {
-			pc.Files[wsFileName[f]] = wsText(f, v)
-		}
 	}
+	// (project-mode histories -- f1.lua configured as entry file -- are switched off: a survey showed that the client's
+	// view diverges from a fresh start whenever an event changes which files the entry requires, see DESIGN.md 11.3;
+	// set VERIF_C08_PROJECT=1 to run them)
+	if os.Getenv("VERIF_C08_PROJECT") == "1" && tc.Disk0["f1"] != "absent" && hash64(string(raw), 11)%3 == 0 {
+		disk["cfg"] = "project"
+	}
+	wsPutFiles(pc, disk)
 	// make sure the sub directory exists even when sub/f3.lua is absent (an empty directory is not a file event)
 	run := &wsRun{tc: &tc}
 	cp := func(m map[string]string) map[string]string {
@@ -320,11 +343,7 @@ func checkC08(c *Ctx) {
 	oidx := map[int]map[string]string{}
 	for i, d := range okeys {
 		pc := &proto.Case{ID: i + 1, Files: map[string]string{}, Init: json.RawMessage(allOnLocal)}
-		for f, v := range d {
-			if v != "absent" {
-				pc.Files[wsFileName[f]] = wsText(f, v)
-			}
-		}
+		wsPutFiles(pc, d)
 		oidx[i+1] = d
 		ocases = append(ocases, []*proto.Case{pc})
 	}
@@ -351,11 +370,7 @@ func checkC08(c *Ctx) {
 		}
 		freshQ[k] = nil
 		pc := &proto.Case{ID: len(qcases) + 1, Files: map[string]string{}, Init: json.RawMessage(allOnLocal)}
-		for f, v := range run.disks[last] {
-			if v != "absent" {
-				pc.Files[wsFileName[f]] = wsText(f, v)
-			}
-		}
+		wsPutFiles(pc, run.disks[last])
 		for _, f := range []string{"f1", "f2", "f3"} {
 			if b := run.bufs[last][f]; b != "closed" && b != "" && run.disks[last][f] != "absent" {
 				pc.Steps = append(pc.Steps, openStep(wsFileName[f], wsText(f, run.disks[last][f])))
